@@ -771,7 +771,7 @@ def coq_representable(fc):
 
 
 def rec(kind, case, obs, coq, oracle, key, size, tags=()):
-    return dict(kind=kind, case=case, obs=obs, coq=coq, oracle=sorted(set(oracle)), key=key, size=int(size),
+    return dict(kind=kind, case=case, obs=obs, coq=coq or "", oracle=sorted(set(oracle)), key=key, size=int(size),
                 tags=list(tags))
 
 
